@@ -316,6 +316,13 @@ pub fn run(env: &mut Env) {
         for s in 1..=top + 1 {
             sys.push(wrap(format!("*/{}", s)));
         }
+        // oversized steps and values (verdict unspecified / reject; must at least not panic)
+        for s in [top + 2, 59, 60, 61, 99, 100, 127, 128, 200, 254, 255, 256, 257, 999, 65_535, 65_536] {
+            sys.push(wrap(format!("*/{}", s)));
+            sys.push(wrap(format!("{}", s)));
+            sys.push(wrap(format!("{}-{}", lo, s)));
+            sys.push(wrap(format!("{}-{}", s, s)));
+        }
     }
     for (i, m) in MONTHS.iter().enumerate() {
         sys.push(Case { expr: format!("0 0 1 {} *", m), mutated: false });
@@ -328,5 +335,5 @@ pub fn run(env: &mut Env) {
     }
     env.run_list::<Denotation>(sys);
     env.exhaustive_parts.push(format!("C16: every single value, every step 1..=max+1{} per field, every month and weekday name", if t { ", every range a<=b" } else { " and a grid of ranges a<=b" }));
-    env.run_random::<Denotation>(if t { 2_000_000 } else { 130_000 });
+    env.run_random::<Denotation>(if t { 2_000_000 } else { 200_000 });
 }
